@@ -690,3 +690,9 @@ where
         self.find_ind(handle)
     }
 }
+
+/// The load factor above which the table grows (`verif-hooks` feature only)
+#[cfg(feature = "verif-hooks")]
+pub fn verif_max_load() -> f32 {
+    MAX_LOAD
+}
